@@ -265,7 +265,7 @@ class Dev:
         self.of = lambda sig: term(ts, sig)
         self.shared_timer, self.token_timer = timers_by_role(ts, self.td)
         # the device's own state registers, by role: what the token detector filters on / what the endpoints are shown
-        self.address = device_register(ts, d, [self.td.address, self.epmux.shared.active_address], "address")
+        self.address = device_register(ts, d, [self.epmux.shared.active_address, self.td.address], "address")
         self.configuration = device_register(ts, d, [self.epmux.shared.active_config], "configuration")
         self.E = [Lazy(ts, iface_signals(e.interface)) for _, e in self.eps]
         self.names = [nm for nm, _ in self.eps]
